@@ -195,7 +195,13 @@ def _worker(args):
         else:
             spec = dict(fault_spec, seed=seed) if fault_spec else None
             ff = faults_mod.build(spec)
-            if seed % 2 == 1:
+            if seed % 8 == 5:
+                h, _log = histories.conflict_and_run(seed, on_job=on_job, mode=mode, cfg_override=cfg_override,
+                                                     fault_for=ff)
+            elif seed % 4 == 3 and admin_jobs:
+                h, _log = histories.branch_jobs_and_run(seed, on_job=on_job, mode=mode, cfg_override=cfg_override,
+                                                        fault_for=ff)
+            elif seed % 2 == 1:
                 h, _log = histories.lifecycle_and_run(seed, on_job=on_job, mode=mode, cfg_override=cfg_override,
                                                       fault_for=ff)
             else:
